@@ -20,6 +20,8 @@ def material(rng, form=None, iso_ok=True):
         nu = float(rng.uniform(-0.4, 0.49))
         return (e1, e1, nu)
     e2 = e1 * logu(rng, 0.02, 2.0)
+    if rng.random() < 0.12:
+        e2 = e1          # balanced fabric: equal moduli with shear moduli of their own (not isotropic)
     lim = 0.95 * np.sqrt(e1 / e2)   # nu12^2*e2/e1 < 1
     nu12 = float(rng.uniform(-0.5, 0.5) * min(1.0, lim) if rng.random() < 0.8 else rng.uniform(-lim, lim) * 0.9)
     g12 = e2 * logu(rng, 0.1, 2.0)
